@@ -9,6 +9,6 @@ assert a in L[ln-1], L[ln-1]
 L[ln-1]=L[ln-1].replace(a,b,1)
 open(f,'w').write('\n'.join(L))
 PY
-r=$(/verif/bin/nfsverif check $5 2>&1 | grep -E '^(VIOLATED|UNDECIDED)' | awk '{print $2" "$3}' | sort -u | cut -c1-90 | tr '\n' ';')
+r=$(${BIN:-/verif/bin/nfsverif} check $5 2>&1 | grep -E '^(VIOLATED|UNDECIDED)' | awk '{print $2" "$3}' | sort -u | cut -c1-90 | tr '\n' ';')
 git checkout -- .
 echo "$1:$2 [$4] => [$r]"
